@@ -360,6 +360,38 @@ def hFitness (inp out : Json) : Except String Findings := do
   let fs := diff fs "fit" f (fit t n)
   return fs
 
+/-! ### FilterAndMapPodsByNode -/
+structure KeptJ where
+  node : String
+  pod : Option String
+  deriving FromJson
+
+def keptStr (k : List (String × Option String)) : String :=
+  ", ".intercalate (k.map (fun e => s!"{e.1}:{e.2.getD "-"}"))
+
+def hFilter (inp out : Json) : Except String Findings := do
+  let ers : ERS ← get inp "ers"
+  let nodes : List NodeItem ← get inp "nodes"
+  let pods : List Pod ← get inp "pods"
+  let ignore : List String ← get inp "ignore"
+  let inBackoff : List String ← get inp "inBackoff"
+  let byNode : List KeptJ ← get out "byNode"
+  let toDelete : List String ← get out "toDelete"
+  let uns : List String ← get out "unscheduled"
+  let pn : Bool ← get out "panic"
+  let m := filterAndMap (fun n => !inBackoff.contains n) ers.template nodes pods ignore
+  let kept := byNode.map (fun k => (k.node, k.pod))
+  let fs : Findings := #[]
+  let fs := diff fs "panic" pn false
+  let fs := diff fs "byNode" (keptStr kept) (keptStr (m.byNode.map (fun e => (e.1.node.name, e.2.map (·.name)))))
+  let fs := diff fs "toDelete" (sortStrs toDelete) (sortStrs (m.toDelete.map (·.name)))
+  let fs := diff fs "unscheduled" (sortStrs uns) (sortStrs (m.unscheduled.map (·.name)))
+  let fs := spec fs "C01.keys" (Spec.C01.keysOk ers.template nodes ignore kept)
+  let fs := spec fs "C01.dup-resolution" (Spec.C01.dupOk pods kept toDelete)
+  let fs := spec fs "C01.stray-pods" (Spec.C01.strayOk ers.template nodes ignore pods toDelete)
+  let fs := spec fs "C01.unknown-untouched" (Spec.C01.unknownUntouched pods kept toDelete)
+  return fs
+
 def handlers : List (String × (Json → Json → Except String Findings)) := [
   ("limits", hLimits),
   ("max_creation", hMaxCreation),
@@ -370,7 +402,8 @@ def handlers : List (String × (Json → Json → Except String Findings)) := [
   ("labels", hLabels),
   ("defaults", hDefaults),
   ("setting_conflict", hSettingConflict),
-  ("fitness", hFitness)
+  ("fitness", hFitness),
+  ("filter", hFilter)
 ]
 
 def handleLine (line : String) : String :=
